@@ -253,4 +253,6 @@ def _run_instrumented(cfg, cache_in: dict, script: bytes, env, factor):
             if isinstance(e, (KeyboardInterrupt, SystemExit)):
                 raise
             status = 'ERR:' + type(e).__name__
+        if tr.run_tapes > 30_000 * factor:
+            status = 'ERR:HarnessAbort'         # the abort may have been swallowed by a TRY of the script: not an outcome of the script
     return status, tape, stack, cache, tr
